@@ -364,6 +364,20 @@ def check_wrap(crate, rep, cfg):
             ok = False
             why = why or "no local Vec<u8> writer"
         (rep.ok if ok else rep.bad)("C18.WRAP", key, b.where(bb), what if ok else what + " — VIOLATED: " + why)
+        # ... and it has no answer of its own: whatever it returns without having called the sibling is an error being propagated
+        # (`?`) — never a value computed on a shortcut ("nothing to render here") that the `_to` form would compute differently
+        short = []
+        for b2, i2, st in b.stmts():
+            if i2 == "t":
+                if st["k"] == "call" and st["dest"]["l"] == 0 and not st["dest"]["p"] and not b.dominates(bb, b2):
+                    if not callee_def(st).endswith("FromResidual::from_residual"):
+                        short.append(b2)
+            elif st.get("k") == "assign" and st["pl"]["l"] == 0 and not st["pl"]["p"] and not b.dominates(bb, b2):
+                rv = st["rv"]
+                if not (rv["k"] == "agg" and rv.get("variant") == "Err"):
+                    short.append(b2)
+        rep.add("C18.WRAP", key + ":no-shortcut", not short, b.where(short[0]) if short else b.where(bb), "every value %s returns is produced after the call of %s "
+                "(before it, only `?` propagation of an error)" % (path.rsplit("::", 1)[-1], sib) + ("" if not short else " — VIOLATED: a result is built on a path that never calls the sibling"))
     for a, core in CORE_PAIRS:
         b = crate.one(a)
         calls = [(bb, t) for bb, t in b.calls() if callee_def(t) == core]
